@@ -14,7 +14,7 @@ import (
 func init() {
 	checks["C08"] = func(o checkOpts) int {
 		return runGenCheck(o, "exploration",
-			genBudget{cases: 70, wall: 110 * time.Second, shrinkN: 30, shrinkT: 60 * time.Second},
+			genBudget{cases: 800, wall: 90 * time.Second, shrinkN: 30, shrinkT: 60 * time.Second},
 			genBudget{cases: 3000, wall: 25 * time.Minute, shrinkN: 150, shrinkT: 8 * time.Minute},
 			"one case = one generated module executed 5-9 times from the same initial disk state, the executions differing only in simulator-owned choices: map-iteration plan (identity / reverse / rotate / random seeds) for every range over a map in goderive, permutation of loader.InitialPackages, GOMAXPROCS 1/4/16, and invocation context (cwd and spelling: '.', './p', './...', import path; p alone or together with q / ext in either order); clause: every package's derived.gen.go has the same bytes in all executions that process it; distinct = distinct (world, variant set) hash; non-trivial = world has mutually assignable types, several packages or >= 3 calls",
 			[]string{"the initial disk state is identical for all executions of a case (dependence on the old file is C07's subject)"})
